@@ -245,4 +245,92 @@ theorem h1_length_mismatch_fails (buf : Nat) (method : Bytes) (n : Nat) (r : Rea
   intro hok
   exact hne ((h1_body_ok_exact buf method (some (n + 1)) r hok).2 (n + 1) rfl)
 
+/-- plan-level form of `h1_honest_body_completes` -/
+theorem pieces_honest (buf : Nat) (hbuf : 1 ≤ buf) (p : Plan) (data : Bytes) (ending : Ending)
+    (hinv : PlanInv p data ending) (hend : ending = .eof ∨ ending = .eofWithLast)
+    (hcl : ∀ n, p.mode = .known n → data.length = n) : (pieces buf p).2 = .ok := by
+  have hb := hinv.bytes
+  unfold Plan.bytes at hb
+  have hre : p.reader.ending = .eof ∨ p.reader.ending = .eofWithLast := by rw [hinv.ending]; exact hend
+  unfold pieces
+  split
+  · rfl
+  next hm =>
+    simp only
+    unfold copyAll
+    have hprog := ioCopy_progress buf hbuf (fuelFor p.reader) (limitOf p.mode) p.reader (Nat.le_refl _) hre
+    obtain ⟨i1, _, _, i4, i5⟩ := ioCopy_spec buf (fuelFor p.reader) (limitOf p.mode) p.reader
+    generalize ioCopy buf (fuelFor p.reader) (limitOf p.mode) p.reader = res at *
+    obtain ⟨ws, o, r'⟩ := res
+    simp only at i1 i4 i5 hprog ⊢
+    subst hprog
+    cases hmode : p.mode with
+    | noBody => exact absurd hmode hm
+    | chunked => simp [outcomeOf]
+    | identity => simp [outcomeOf]
+    | known n =>
+      have hp0 := hinv.known n hmode
+      have hdl := hcl n hmode
+      have hre' : r'.ending = .eof ∨ r'.ending = .eofWithLast := by rw [i4]; exact hre
+      have hprog2 := ioCopy_progress 8192 (by omega) (fuelFor r') none r' (Nat.le_refl _) hre'
+      obtain ⟨j1, _, _, _, j5⟩ := ioCopy_spec 8192 (fuelFor r') none r'
+      simp only [outcomeOf]
+      generalize ioCopy 8192 (fuelFor r') none r' = d at *
+      obtain ⟨ds, o2, r2⟩ := d
+      simp only at j1 j5 hprog2 ⊢
+      subst hprog2
+      have hr2 : r2.data = [] := by
+        rcases j5 rfl with h | h
+        · exact h
+        · cases h
+      rw [hr2, List.append_nil] at j1
+      rw [hp0, List.nil_append] at hb
+      have hl : ws.flatten.length + ds.flatten.length = n := by
+        rw [j1, ← hdl, ← hb, ← i1, List.length_append]
+      simp only [List.length_flatten] at hl
+      simp [hp0, hl]
+
+/-- **h1_honest_body_completes** — progress / non-vacuity of `ok`: a reader that ends with `io.EOF`
+(alone or together with its last bytes), whatever its read sizes, with a truthful or absent declared
+length, is written completely and `writeBody` returns nil. -/
+theorem h1_honest_body_completes (buf : Nat) (hbuf : 1 ≤ buf) (method : Bytes) (cl : Option Nat) (r : Reader)
+    (hend : r.ending = .eof ∨ r.ending = .eofWithLast) (hcl : cl = none ∨ cl = some r.data.length) :
+    (pieces buf (plan method cl r)).2 = .ok ∧ (pieces buf (plan method cl r)).1.flatten = r.data := by
+  have hok : (pieces buf (plan method cl r)).2 = .ok := by
+    refine pieces_honest buf hbuf _ r.data r.ending (plan_inv method cl r) hend ?_
+    intro n hn
+    rcases hcl with h | h
+    · subst h
+      have : (plan method none r).mode = (planUnknown method r).mode := rfl
+      rw [this] at hn
+      unfold planUnknown at hn
+      simp only at hn
+      split at hn
+      · cases hn
+      · split at hn
+        · split at hn <;> cases hn
+        · cases hn
+    · subst h
+      cases hd : r.data.length with
+      | zero =>
+        rw [hd] at hn
+        have : (plan method (some 0) r).mode = (planUnknown method r).mode := rfl
+        rw [this] at hn
+        unfold planUnknown at hn
+        simp only at hn
+        split at hn
+        · cases hn
+        · split at hn
+          · split at hn <;> cases hn
+          · cases hn
+      | succ k =>
+        rw [hd] at hn
+        cases hn
+        rfl
+  exact ⟨hok, (h1_body_ok_exact buf method cl r hok).1⟩
+
+example : writeBody 4 (plan [71, 69, 84] none { data := [1, 2, 3, 4, 5, 6], sizes := [1, 0, 2], ending := .eofWithLast }) =
+    ([49, 13, 10, 1, 13, 10, 50, 13, 10, 2, 3, 13, 10, 51, 13, 10, 4, 5, 6, 13, 10, 48, 13, 10, 13, 10], .ok) := by
+  decide
+
 end Req.Props.C01BodyH1
